@@ -2,7 +2,7 @@ SPECIFICATION Spec
 CONSTANTS
   RepAll = TRUE
   Mode = "mc"
-  MaxNodes = 7
+  MaxNodes = 6
   Enabled = {"Module", "Fn", "Set", "Deref", "Len", "Idx", "Mem", "Int"}
   FlagSets <- FlagSets_none
   VarForms <- VarForms_init
